@@ -70,6 +70,29 @@ def _polars(vec: Dict[str, Any]):
     return schema, df
 
 
+STAGE_OF = {"not_nullable": "nullable", "field_uniqueness": "unique", "greater_than(0)": "gt0", "less_than_or_equal_to(1)": "le1",
+            "multiple_fields_uniqueness": "joint", "rowcheck": "rowcheck"}
+
+
+def _report(e, df) -> Dict[str, Any]:
+    """the rows (1-based positions) the lazy report names, per constraint; labels are mapped back to positions, a
+    repeated label standing for every row that carries it"""
+    labels = list(df.index)
+    out: Dict[str, Any] = {}
+    fc = e.failure_cases
+    for chk, lab in zip(fc["check"].tolist(), fc["index"].tolist()):
+        stage = STAGE_OF.get(str(chk), "other:%s" % chk)
+        if isinstance(lab, str) and lab.startswith("("):
+            try:
+                lab = eval(lab, {"Timestamp": __import__("pandas").Timestamp, "nan": float("nan")})  # noqa: S307 - mirrors pandera
+            except Exception:  # noqa: BLE001
+                pass
+        pos = sorted(i + 1 for i, l in enumerate(labels) if l == lab or (isinstance(l, tuple) and isinstance(lab, tuple) and
+                                                                      tuple(map(str, l)) == tuple(map(str, lab))))
+        out.setdefault(stage, set()).update(pos if pos else {"unknown-label:%r" % (lab,)})
+    return {k: sorted(v, key=str) for k, v in out.items()}
+
+
 def observe_rows(vec: Dict[str, Any]) -> Dict[str, Any]:
     import pandera as pa0
 
@@ -91,7 +114,11 @@ def observe_rows(vec: Dict[str, Any]) -> Dict[str, Any]:
             try:
                 schema.validate(df.clone() if vec["backend"] == "polars" else df.copy(), **dict(kw, lazy=True))
                 out["lazy_kind"] = "ok"
-            except (pa0.errors.SchemaErrors, pa0.errors.SchemaError):
+            except pa0.errors.SchemaErrors as e:
+                out["lazy_kind"] = "raises"
+                if vec["backend"] == "pandas":
+                    out["report"] = _report(e, df)
+            except pa0.errors.SchemaError:
                 out["lazy_kind"] = "raises"
             except Exception as e:  # noqa: BLE001
                 out["lazy_kind"] = "Leak:" + type(e).__name__
